@@ -87,6 +87,7 @@ class Scenario:
         self.nmesh = 0
         self.folders = {"A": os.path.join(tmp, "A"), "B": os.path.join(tmp, "B")}
         self.crash = None
+        self.unit = Fraction(1)  # 'tiny' histories: loads (hence every field) in units of 2^-50 - nothing may depend on an absolute magnitude
 
     # -- state access through the public getters
     def live(self):
@@ -101,7 +102,7 @@ class Scenario:
         return {"u": results.get("displacement"), "v": results.get("speed"), "a": results.get("accel")}
 
     def expect(self, label, got, want, key, tol=0):
-        self.cmp.append((label, farr(got), farr(want), key, tol))
+        self.cmp.append((label, farr(got), farr(want), key, tol * self.unit))
 
     # -- operations
     def op_solve(self):
@@ -112,7 +113,7 @@ class Scenario:
         s.Bc_Init()
         nodes = s.mesh.nodes
         s.add_dirichlet(nodes[:2], [0] * len(un), un)  # two nodes: no rigid rotation left in 2-D elasticity
-        s.add_neumann(nodes[2:4], [self.V.get(f"q{k}_{i}") for i in range(len(un))], un)
+        s.add_neumann(nodes[2:4], [self.V.get(f"q{k}_{i}", -self.unit, self.unit) for i in range(len(un))], un)
         s.Solve()
 
     def op_save(self):
@@ -268,10 +269,12 @@ class Scenario:
         sym = facade.symbolic if self.V.symbolic else contextlib.nullcontext
         solver = stubs.ideal_linear_solver if self.V.symbolic else contextlib.nullcontext
         with sym(), solver():
+            if "tiny" in ops:
+                self.unit = Fraction(1, 2 ** 50)
             quiet = "quiet" in ops  # no reads of the history between the operations (the check's own reads must not be what keeps the library right)
             for op in ops:
                 name, arg = (op.split(":") + [None])[:2]
-                if name == "quiet":
+                if name in ("quiet", "tiny"):
                     continue
                 try:
                     if name == "S":  # macro: solve + save
@@ -351,7 +354,7 @@ def job_seq(cfg):
                     if got.shape != want.shape:
                         return True, {"operations": ops, "what": lab, "shape_got": list(got.shape), "shape_expected": list(want.shape)}
                     err = float(np.abs(got - want).max()) if got.size else 0.0
-                    return err > 1e-9 * max(1.0, float(np.abs(want).max()) if want.size else 1.0), {"operations": ops, "what": lab, "max_abs_difference": err}
+                    return err > 1e-9 * max(float(sc2.unit), float(np.abs(want).max()) if want.size else float(sc2.unit)), {"operations": ops, "what": lab, "max_abs_difference": err}
                 finally:
                     shutil.rmtree(tmp2, ignore_errors=True)
             return replay
@@ -380,6 +383,30 @@ def job_seq(cfg):
             res.record(f"{key0}: {label}", worst or Outcome("held", how="normal-form" if tol == 0 else "exact"), make_replay(idx, label), key=okey,
                        sample=None if not first else {"obligation": f"{key0}: {label} (identity of linear forms in the load symbols)"})
             first = False
+        # float path at the shadow point (ground facts, no quantifier): code that treats float64 arrays differently from object arrays (copies,
+        # views, de-duplication) is invisible to the symbolic run; the same history is executed on plain floats and every comparison evaluated
+        if cfg.get("float_shadow"):
+            tmp3 = tempfile.mkdtemp(prefix="c15f_")
+            try:
+                sc3 = Scenario(sim, Vals(c, env={}, names=V.names), tmp3)
+                sc3.run(ops)
+                known_failing = {idx for idx, (label, got, want, key, tol) in enumerate(sc.cmp) if got.shape != want.shape or any(not (as_sym(got[j]) - as_sym(want[j])).n.is_zero() for j in range(got.size))}
+                bad = None
+                for idx, (lab, got, want, key, tol) in enumerate(sc3.cmp):
+                    if idx in known_failing:
+                        continue  # already reported (or listed as a known finding) by the symbolic obligations above
+                    g_, w_ = np.asarray(got, dtype=float), np.asarray(want, dtype=float)
+                    if g_.shape != w_.shape or (g_.size and float(np.abs(g_ - w_).max()) > 1e-9 * max(float(sc3.unit), float(np.abs(w_).max()))):
+                        bad = (idx, lab, key)
+                        break
+                if sc3.crash and not sc.crash:
+                    res.record(f"{key0}: the float run of the sequence ends without error", Outcome("cex", env={}, how="structure", detail=sc3.crash), make_replay("crash", ""), key=f"{sim}: float run fails [{crash_key(sc3.crash)}]")
+                elif bad is not None:
+                    res.record(f"{key0}: float run at the shadow point: {bad[1]}", Outcome("cex", env={}, how="structure"), make_replay(bad[0], bad[1]), key=f"{sim}: {bad[2]} [float run]")
+                else:
+                    res.held(f"{key0}: float run at the shadow point: all comparisons", how="ground-exact")
+            finally:
+                shutil.rmtree(tmp3, ignore_errors=True)
         # reachability twin: a saved field differs from another step's field (the identities are not vacuous)
         tw = True
         if len(sc.snap) >= 2 and sc.nsolve >= 2:
@@ -466,10 +493,15 @@ def configs(tier):
                     ["folder:A", "S", "get:neg", "S", "get:neg", "folder:B", "S", "set_iter:neg", "saveload"]):
             seqs.append(["solve"] + seq)
             seqs.append(["quiet", "solve"] + seq)
+        # histories in tiny units (every field below 2^-50 ~ 9e-16): consecutive saves differ by less than any absolute tolerance
+        for seq in (["S", "S", "S", "set_iter:first", "get:mid", "result:last", "set_iter:mid"], ["folder:A", "S", "S", "S", "set_iter:first", "get:mid", "set_iter:last"],
+                    ["S", "S", "folder:A", "S", "result:first", "set_iter:mid", "saveload"]):
+            seqs.append(["tiny", "solve"] + seq)
+            seqs.append(["tiny", "quiet", "solve"] + seq)
         # the same histories without the check's own reads between the operations (every 7th sequence)
         seqs += [["quiet"] + q for q in seqs[::7] if "quiet" not in q]
-        for seq in seqs:
-            out.append({"sim": sim, "ops": seq})
+        for k_, seq in enumerate(seqs):
+            out.append({"sim": sim, "ops": seq, "float_shadow": ("tiny" in seq) or k_ % 5 == 0})
     return out
 
 
